@@ -6,12 +6,13 @@ sys.path.insert(0, os.path.dirname(os.path.dirname(os.path.abspath(__file__))))
 from vf import check
 import registry
 u = sys.argv[1]
+REPO = sys.argv[sys.argv.index('--repo') + 1] if '--repo' in sys.argv else '/repo'
 wd = tempfile.mkdtemp(prefix='selftest-')
 try:
     for mu in registry.UNITS[u].get('mutants', []):
-        print(mu['name'], '->', check.run_mutant(u, mu, '/repo', wd))
+        print(mu['name'], '->', check.run_mutant(u, mu, REPO, wd))
     if '--oracle' in sys.argv and registry.UNITS[u].get('oracle'):
-        failed, out = check.run_oracle(registry.UNITS[u]['oracle'], '/repo')
+        failed, out = check.run_oracle(registry.UNITS[u]['oracle'], REPO)
         print('oracle failed =', failed)
         print('\n'.join(l for l in out.split('\n') if 'verif_oracle' in l or 'FAILING' in l or 'error' in l.lower())[:3000])
 finally:
